@@ -15,7 +15,8 @@ from metapype.model.normalize import normalize
 
 LEVEL = "exploration"
 ASSUMPTIONS = [
-    "text: strings up to length 8 (thorough 10) over {a,b,space,tab,LF,NBSP} and up to 3 over a wider alphabet",
+    "text: strings up to length 8 (thorough 10) over {a,b,space,tab,LF,NBSP} and up to 3 (4) over a wider alphabet incl. compatibility "
+    "characters; beyond that gaps of 9-5 000 blanks in four positions and two 3 000-word texts",
     "XML: up to 4 elements, attributes unprefixed or xsi-prefixed, literal NBSP only (no numeric character references; the five "
     "predefined entities occur), no comments/PIs",
 ]
